@@ -434,3 +434,21 @@ MANIFEST = {
     "level_note": "Trusted: asyncio transport/close semantics; the exception hierarchy table; calls into owner.connection_made "
     "resolved through the IpPairing annotation. Histories/peer view are not decided.",
 }
+
+TWIN_FILES = ["aiohomekit/controller/ip/connection.py"]
+_F = "aiohomekit/controller/ip/connection.py"
+VARIANTS = [
+    {"name": "failed attempt's transport not dropped (pinned defect)", "file": _F,
+     "old": "                    except BaseException:\n                        # Whatever went wrong, a transport opened by this\n                        # attempt is of no use without a secure session: close\n                        # it so it is not leaked when the next attempt\n                        # replaces it.\n                        self._drop_transport()\n                        raise",
+     "new": "                    except BaseException:\n                        raise", "expect": "C11.G1"},
+    {"name": "only HomeKitException failures drop the transport", "file": _F, "old": "                    except BaseException:\n                        # Whatever went wrong", "new": "                    except HomeKitException:\n                        # Whatever went wrong", "expect": "C11.G1"},
+    {"name": "identity guard removed (pinned defect)", "file": _F, "old": "        if self.connection.protocol is self or self.connection.protocol is None:\n", "new": "        if True:\n", "expect": "C11.G2"},
+    {"name": "identity guard inverted", "file": _F, "old": "        if self.connection.protocol is self or self.connection.protocol is None:", "new": "        if self.connection.protocol is not self:", "expect": "C11.G2"},
+    {"name": "finished connector's error re-raised by close (pinned defect)", "file": _F,
+     "old": "        except Exception as ex:  # pylint: disable=broad-except\n            # The connector already finished with an error (for example an\n            # AuthenticationError); closing must not fail because of it.\n            logger.debug(\"%s: Connector had failed: %s\", self.name, ex)\n", "new": "", "expect": "C11.X1"},
+    {"name": "close() raises when already closing", "file": _F, "old": "        self.closing = True\n\n        await self._stop_connector()", "new": "        if self.closing:\n            raise AccessoryDisconnectedError(\"already closing\")\n        self.closing = True\n\n        await self._stop_connector()", "expect": "C11.X1"},
+    {"name": "references cleared before closing", "file": _F, "old": "        if self.transport:\n            self.transport.close()\n        self.transport = None\n        self.protocol = None", "new": "        transport, self.transport = self.transport, None\n        self.protocol = None\n        self.transport = None\n        if self.transport:\n            self.transport.close()", "expect": "C11.G3"},
+    {"name": "close() forgets the transport", "file": _F, "old": "        await self._stop_connector()\n\n        self._drop_transport()\n        self.is_secure = None", "new": "        await self._stop_connector()\n\n        self.is_secure = None", "expect": ["C11.G3", "C11.G1"]},
+    {"name": "post_tlv keeps the connection after an HTTP error", "file": _F, "old": "        except HttpErrorResponse as e:\n            self.transport.close()\n            response = e.response", "new": "        except HttpErrorResponse as e:\n            response = e.response", "expect": "C11.G3"},
+    {"name": "second connect site", "file": _F, "old": "    async def ensure_connection(self) -> None:", "new": "    async def _quick_connect(self) -> None:\n        await self._connect_once()\n\n    async def ensure_connection(self) -> None:", "expect": "C11.G3"},
+]
